@@ -54,7 +54,16 @@ def main():
         else:
             return ctx.finish(thm)
 
-    mod.run(ctx)
+    try:
+        mod.run(ctx)
+    except Exception as e:  # noqa
+        # the machinery met behaviour of the implementation it cannot interpret: the property is no longer
+        # shown to hold; report it rather than die without a verdict
+        import traceback
+        tb = traceback.format_exc()
+        ctx.violation('harness', 'the check could not be completed: %s: %s (%s)' % (type(e).__name__, e, tb.strip().split('\n')[-3].strip()[:200]),
+                      None, found_input=False)
+        return ctx.finish(thm)
 
     n, err = ctx.model.coq_crosscheck(ctx.all_requests)
     ctx.notes.append('extraction cross-check: %d requests re-evaluated by vm_compute inside Coq' % n)
